@@ -99,6 +99,40 @@ def recover(state, shape, tail, ref, label, d):
     return None, committed
 
 
+def retry_while_alive(d, shape, tail, ref, where, ri, j):
+    """The failed run's exception (and with it the suspended pipeline) is kept alive - as an interactive session, a test
+    runner or plain reference cycles would - and a fresh Flow is run right away."""
+    root = os.path.join(d, 'alive')
+    shutil.rmtree(root, ignore_errors=True)
+    os.makedirs(root)
+    keep = []
+    import gc
+    gc.disable()
+    try:
+        try:
+            make_flow(root, shape, tail, [], (where, ri, j)).results()
+        except Exception as e:
+            keep.append(e)
+        label = 'fresh Flow run while the pipeline that failed in the %sstream step at resource %d row %s is still referenced' % (where, ri, j)
+        pulls = []
+        try:
+            res, dp, _ = make_flow(root, shape, tail, pulls).results()
+            second = ('ok', [enc_rows(r) for r in res], copy.deepcopy(dp.descriptor))
+        except Exception as e:
+            second = ('exc', core.exc_sig(e) + ': ' + str(e)[:80])
+    finally:
+        gc.enable()
+    out = None
+    if second[0] == 'exc':
+        out = ('retry-raises', '%s: raises %s' % (label, second[1]))
+    elif (second[1], second[2]) != (ref[1], ref[2]):
+        out = ('retry-differs', '%s: returns rows per resource %r, uninterrupted %r' % (label, [len(x) for x in second[1]], [len(x) for x in ref[1]]))
+    del keep[:]
+    gc.collect()
+    shutil.rmtree(root, ignore_errors=True)
+    return out
+
+
 def same_object_retry(d, shape, tail, ref, where, ri, j):
     """The SAME Flow object is run again after its failure (the transient fault gone), then a fresh Flow resumes."""
     import gc
@@ -214,6 +248,10 @@ def check_scenario(sc):
                         note('same-object-retry')
                         if v2:
                             V(v2[0], v2[1], {'kind': 'same-object-retry', 'where': where, 'ri': ri, 'j': j})
+                        v3 = retry_while_alive(d, shape, tail, ref, where, ri, j)
+                        note('retry-while-alive')
+                        if v3:
+                            V(v3[0], v3[1], {'kind': 'retry-while-alive', 'where': where, 'ri': ri, 'j': j})
                     note('stepfault:%s:%s' % (where, 'committed' if committed else 'uncommitted'),
                          h(['stepfault', shape, tail, where, ri, j]))
                     if v:
